@@ -181,6 +181,16 @@ Definition raw_case (t : ty) (obs : list (Z * Z * Z)) (obs_sizeof : Z) : list Z 
   if triples_eqb expect obs && size_ok then (if model_ok then [] else [89; pc_size t])
   else [88; b2z size_ok; size t] ++ flat3 expect.
 
+From Prophy Require Import CppFull.
+
+(* C05: obs = get_byte_size() of the compiled generated codec for the object decoded from the
+   canonical bytes of v; it must be what the generator model computes (tie of the C05 theorem) and
+   the length of the canonical encoding (the property) *)
+Definition cpp_size_case (t : ty) (v : value) (obs : Z) : list Z :=
+  if negb (obs =? len (wire LE t v)) then [91; len (wire LE t v)]
+  else if negb (obs =? cpp_size t v) then [90; cpp_size t v]
+  else [].
+
 From Prophy Require Import ApiSpec.
 
 (* C10 / C11: a history of API operations on two fresh messages; obs = per step
